@@ -2,11 +2,15 @@
 import os
 import select
 import signal
+import time
 import subprocess
 
 HERE = os.path.dirname(os.path.abspath(__file__))
 VERIF = os.path.dirname(HERE)
 PYMODEL = os.path.join(VERIF, "lean", ".lake", "build", "bin", "pymodel")
+
+
+WAITED = [0.0]   # wall time spent waiting for answers of the model process (see core.with_budget)
 
 
 class Model:
@@ -50,9 +54,11 @@ class Model:
         # answer has been read (the resynchronisation above stays as a second line of defence)
         old = signal.pthread_sigmask(signal.SIG_BLOCK, {signal.SIGALRM})
         try:
+            t0 = time.monotonic()
             self.p.stdin.write(line.encode() + b"\n")
             self.p.stdin.flush()
             out = self._readline()
+            WAITED[0] += time.monotonic() - t0
             # the exchange is complete: cleared BEFORE the alarm is let through again — a held-back alarm fires inside
             # the `finally` below, and an `inflight` left set there would make the next ask() wait for an answer that
             # has already been read (both processes then wait for each other for ever)
